@@ -200,6 +200,17 @@ def candidates(tier, rnd):
         if "Default" in la:
             t2.variants[2].extra_attrs.append("#[default]")
         out.append((t2, "attr" if "Hash" not in la else "derive", la))
+    # helper attributes of the co-derived traits on a field are those traits' business (a debug-ignored / hash-ignored / valued field is cloned like any other)
+    t = TypeSpec("struct", [Variant(None, "named", [F("f0", "RE"), F("f1", "RE"), F("f2", "RE")])], shape="struct-named3-RE-foreign-helpers")
+    t.variants[0].fields[0].extra_attrs.append("#[debug(ignore)]")
+    t.variants[0].fields[1].extra_attrs.append("#[hash(ignore)]")
+    t.variants[0].fields[2].extra_attrs.append("#[default(RE(3))]")
+    out.append((t, "attr", "Clone, Debug, Hash, Default"))
+    t2 = TypeSpec("enum", [Variant("V0", "tuple", [F(None, "RE"), F(None, "RE")]), Variant("V1", "named", [F("a", "RE")]), Variant("V2", "unit", [])], shape="enum-RE-foreign-helpers")
+    t2.variants[0].fields[0].extra_attrs.append("#[debug(ignore)]")
+    t2.variants[1].fields[0].extra_attrs.append("#[debug(transparent)]")
+    t2.variants[0].fields[1].extra_attrs.append("#[hash(ignore)]")
+    out.append((t2, "derive", "Debug, Clone, Hash"))
     # field names that are not in alphabetical order (declaration order is what counts), next to tuple fields
     t = TypeSpec("struct", [Variant(None, "named", [F("zeta", "R"), F("alpha", "R"), F("mid", "R"), F("beta", "u8")])], shape="struct-named4-unsorted-names")
     out.append((t, "attr", "Clone"))
